@@ -331,6 +331,7 @@ def on_jacobian(call):
 
 
 def install():
+    probe.enable_recall("C10.recall", every=5)
     base = "esutil.wcsutil:WCS."
     probe.instrument(base + "__init__", [on_init])
     probe.instrument(base + "image2sky", [on_image2sky])
